@@ -518,7 +518,7 @@ def parse_params(ps, cls=None):
 
 OPNAMES = {"+": "add", "-": "sub", "*": "mul", "/": "div", "+=": "iadd", "-=": "isub", "*=": "imul", "/=": "idiv"}
 
-FOR_RE = re.compile(r"for\s*\(\s*(?:FASTOR_INDEX|int|size_t|int32_t|unsigned long|unsigned)\s+(\w+)\s*=\s*(\d+)(?:UL|ul|u|U)?\s*;\s*\1\s*<\s*(\d+)(?:UL|ul|u|U)?\s*;\s*(?:\+\+\s*\1|\1\s*\+\+)\s*\)")
+FOR_RE = re.compile(r"for\s*\(\s*(?:FASTOR_INDEX|int|size_t|int32_t|unsigned long|unsigned)\s+(\w+)\s*=\s*(\d+)(?:UL|ul|u|U)?\s*;\s*\1\s*<\s*(\d+(?:\s*[-+]\s*\d+)*)(?:UL|ul|u|U)?\s*;\s*(?:\+\+\s*\1|\1\s*\+\+)\s*\)")
 
 def unroll(body):
     """constant-bound `for (I i = lo; i < hi; ++i) BODY`  ->  BODY[i:=lo]; ...; BODY[i:=hi-1]"""
@@ -526,7 +526,7 @@ def unroll(body):
         ms = list(FOR_RE.finditer(body))
         if not ms: return body
         m = ms[-1]
-        var, lo, hi = m.group(1), int(m.group(2)), int(m.group(3))
+        var, lo, hi = m.group(1), int(m.group(2)), sum(int(t) for t in re.findall(r"[-+]?\d+", m.group(3).replace(" ", "")))
         if hi - lo > 64: raise Untranslatable("loop with %d iterations" % (hi - lo))
         rest = body[m.end():]
         k = len(rest) - len(rest.lstrip())
